@@ -1,8 +1,8 @@
 \* exhaustive: every list of <= 2 views over a product domain of selectors x every instrument
-\* (tools/props/C19.py widens TypeSet to all six types in the thorough tier)
+\* (quick tier of tools/props/C19.py; the thorough tier uses Types3 / MSels4)
 CONSTANTS
-  TypeSet <- Types2   PatSet <- Pats3   UnitSelSet <- UnitSel2   MSelSet <- MSels4   ShapeSet <- Shapes2
-  INameSet <- INamesAll   IUnitSet <- IUnits2   MeterSet <- Meters2   AttrSet <- Attrs1
+  TypeSet <- Types2   PatSet <- Pats3   UnitSelSet <- UnitSel2   MSelSet <- MSels2   ShapeSet <- Shapes2
+  INameSet <- INamesAll   IUnitSet <- IUnit1   MeterSet <- Meters2   AttrSet <- Attrs1
   MaxViews = 2  MaxInst = 1  Hist = FALSE
 INIT Init
 NEXT Next
